@@ -106,9 +106,10 @@ func keyTrouble(p hx.Path, pat []hx.Unit, count int) bool {
 func jsonWalker(f hx.Fmt, p hx.Path) bool { return f == hx.Json && p.Walker }
 
 // hostile: one of the nesting levels has a head no input can honour
-func hostile(pat []hx.Unit, count int) bool {
-	for i := 0; i < count && i < len(pat); i++ {
-		if pat[i].Hostile {
+func hostile(p hx.Path, pat []hx.Unit, count int) bool {
+	for i := 0; i < count; i++ {
+		u := pat[i%len(pat)]
+		if u.Hostile || (u.LeafOnly && !p.Walker && i < count-1) {
 			return true
 		}
 	}
@@ -122,9 +123,9 @@ func (c *ctx) judge(stream string, f hx.Fmt, o hx.Opts, p hx.Path, pat []hx.Unit
 	switch {
 	case escaped:
 		c.sum.FailC(stream, "panic-escaped:"+cid, "a panic escaped Decode", cj())
-	case hostile(pat, count):
+	case hostile(p, pat, count):
 		if cls == 0 {
-			c.sum.FailC(stream, "hostile-length-accepted:"+cid, "a container head claiming 0xFFFFFFFF80000000 elements was accepted (nested to MaxDepth or beyond: without error)", cj())
+			c.sum.FailC(stream, "hostile-nesting-accepted:"+cid, "a nesting that can only be an error (a container head claiming 0xFFFFFFFF80000000 elements; a tag 4/5 item where an integer exponent / mantissa belongs) was accepted", cj())
 		}
 	case eff >= md && cls == 0:
 		if jsonWalker(f, p) {
@@ -227,6 +228,13 @@ func optVariants(r *vh.Rng, f hx.Fmt, md int, p hx.Path) []hx.Opts {
 		return []hx.Opts{base}
 	}
 	out := []hx.Opts{base}
+	if p.Name == "float64" || p.Name == "floats" {
+		// with SkipUnexpectedTags the typed float path skips tags 4 / 5 as well and then meets the array: an error
+		// for every such item, nested or not; only the plain option vector tells the two apart
+		o := base
+		o.IO, o.RBS = true, r.PickInt(0, 64)
+		return append(out, o)
+	}
 	if f == hx.Cbor {
 		o := base
 		o.SkipTags = true
@@ -356,7 +364,8 @@ func mixStream(c *ctx, n int) {
 // ---- far beyond MaxDepth, in subprocesses ----
 
 type deepJob struct {
-	Flat  string   `json:"flat,omitempty"` // a long input without nesting (hx.FlatInput) instead of a nested one
+	Stack int      `json:"stack,omitempty"` // stack cap in MB (default 64)
+	Flat  string   `json:"flat,omitempty"`  // a long input without nesting (hx.FlatInput) instead of a nested one
 	F     int      `json:"f"`
 	O     hx.Opts  `json:"o"`
 	Path  string   `json:"p"`
@@ -365,10 +374,13 @@ type deepJob struct {
 }
 
 func childMain(spec string) {
-	debug.SetMaxStack(64 << 20)
 	var j deepJob
 	if err := json.Unmarshal([]byte(spec), &j); err != nil {
 		os.Exit(3)
+	}
+	debug.SetMaxStack(64 << 20)
+	if j.Stack > 0 {
+		debug.SetMaxStack(j.Stack << 20)
 	}
 	f := hx.Fmt(j.F)
 	p := hx.PathByName(j.Path)
@@ -411,7 +423,7 @@ func deepStream(c *ctx, count int, all bool) {
 			}
 			us := p.UnitsFor(f, base)
 			pick := map[string]bool{"arr/w0": true, "map-val": true, "map-key": true, "arr-indef": true, "map-indef": true, "tag": true,
-				"tag-selfdescribe": true, "arr-len-minint32": true, "map-len-minint32": true, "T.P-len-minint32": true, "T.P": true, "T.A": true, "T.M": true, "tag-iext": true, "selfext": true, "arr": true}
+				"tag-selfdescribe": true, "node-map": true, "tag4-mantissa": true, "tag5-mantissa": true, "tag4-exponent": true, "tag5-exponent": true, "arr-len-minint32": true, "map-len-minint32": true, "T.P-len-minint32": true, "T.P": true, "T.A": true, "T.M": true, "tag-iext": true, "selfext": true, "arr": true}
 			for _, u := range us {
 				if !all && !pick[u.Name] {
 					continue
@@ -423,7 +435,7 @@ func deepStream(c *ctx, count int, all bool) {
 				if !p.Walker && u.LvDec == 0 && n < 6000000 {
 					n = 6000000 // units that do not nest (skipped tags) are not stopped by MaxDepth: only their number could grow the stack
 				}
-				jobs = append(jobs, job{deepJob{"", int(f), base, p.Name, []string{u.Name}, n}, []hx.Unit{u}, p})
+				jobs = append(jobs, job{deepJob{F: int(f), O: base, Path: p.Name, Units: []string{u.Name}, Count: n}, []hx.Unit{u}, p})
 				if f == hx.Cbor && strings.HasPrefix(u.Name, "tag") && (p.Name == "iface" || p.Name == "slicei") {
 					o2 := base
 					o2.SkipTags = true
@@ -432,19 +444,25 @@ func deepStream(c *ctx, count int, all bool) {
 						n2 = 6000000
 					}
 					u2, _ := hx.UnitByName(p.UnitsFor(f, o2), u.Name)
-					jobs = append(jobs, job{deepJob{"", int(f), o2, p.Name, []string{u.Name}, n2}, []hx.Unit{u2}, p})
+					jobs = append(jobs, job{deepJob{F: int(f), O: o2, Path: p.Name, Units: []string{u.Name}, Count: n2}, []hx.Unit{u2}, p})
 				}
 			}
 			if len(us) >= 3 && p.Name != "ext-self" {
 				// one mixture per (format, path)
 				pat := []hx.Unit{us[c.r.Intn(len(us))], us[c.r.Intn(len(us))], us[c.r.Intn(len(us))]}
-				jobs = append(jobs, job{deepJob{"", int(f), base, p.Name, []string{pat[0].Name, pat[1].Name, pat[2].Name}, count / 3}, pat, p})
+				jobs = append(jobs, job{deepJob{F: int(f), O: base, Path: p.Name, Units: []string{pat[0].Name, pat[1].Name, pat[2].Name}, Count: count / 3}, pat, p})
+			}
+			// MaxDepth = math.MaxInt16: the depth counter (int16) must not wrap; 32767 legitimate levels need a larger stack cap
+			if len(us) > 0 && (p.Name == "iface" || p.Name == "raw" || p.Name == "field" || p.Name == "T" || p.Name == "mapsi") {
+				o4 := base
+				o4.MaxDepth = 32767
+				jobs = append(jobs, job{deepJob{Stack: 400, F: int(f), O: o4, Path: p.Name, Units: []string{us[0].Name}, Count: count}, []hx.Unit{us[0]}, p})
 			}
 			// an io.Reader transport, unbuffered, for the first unit
 			if len(us) > 0 && p.Name != "ext-self" {
 				o3 := base
 				o3.IO, o3.RBS = true, 4096
-				jobs = append(jobs, job{deepJob{"", int(f), o3, p.Name, []string{us[0].Name}, count}, []hx.Unit{us[0]}, p})
+				jobs = append(jobs, job{deepJob{F: int(f), O: o3, Path: p.Name, Units: []string{us[0].Name}, Count: count}, []hx.Unit{us[0]}, p})
 			}
 		}
 	}
@@ -458,7 +476,7 @@ func deepStream(c *ctx, count int, all bool) {
 				if c.r.Chance(1, 3) {
 					o.IO, o.RBS = true, c.r.PickInt(0, 4096)
 				}
-				jobs = append(jobs, job{deepJob{k, int(f), o, pn, nil, n}, nil, p})
+				jobs = append(jobs, job{deepJob{Flat: k, F: int(f), O: o, Path: pn, Count: n}, nil, p})
 			}
 		}
 	}
